@@ -36,6 +36,16 @@ def run(chk):
         chk.evaluations += 1
         if fails:
             found += chk.violation('failure-not-contained', fails[0], {'kind': 'fail', 'case': c})
+    # the user runs with warnings turned into errors (as one does to make numpy overflows raise): a failure is still contained
+    import warnings
+    for exc in ('RuntimeError', 'ValueError'):
+        c = dict(A.random_case(rng, dims=(1, 2)), iters=20, eps=1e-9, fail_at=rng.choice([3, 7]), exc=exc)
+        with warnings.catch_warnings():
+            warnings.simplefilter('error')
+            fails = O.guarded(O.c16, c)
+        chk.evaluations += 1
+        if fails:
+            found += chk.violation('failure-not-contained', 'with warnings turned into errors: ' + fails[0], {'kind': 'fail', 'case': c, 'warnings': 'error'})
     chk.cov['exception_types'] = EXCS
     S.report_corr(chk, bad, errors, found)
 
